@@ -151,6 +151,7 @@ def _s(x):
 
 def plan(tier):
     units, info = wrgraph.wr_plan(tier, combos_per_unit=300)
+    units = units + wrgraph.scale_units(tier)[0]
     docs = base_docs(tier)
     funits = []
     plain = [i for i, d in enumerate(docs) if not d[2]]
@@ -176,7 +177,9 @@ def plan(tier):
                 'on rich documents) + the 7 spec examples: if the object '
                 'model accepts the file, to_bytes() succeeds, carries the '
                 'reference reading\'s contents and is a fixed point. '
-                'Non-trivial: non-canonical input or >= 2 encodings.'
+                '(3) the scale pass of C01 (boundary sizes of every scalable '
+                'quantity) cycled the same way. Non-trivial: non-canonical '
+                'input or >= 2 encodings.'
                 % (info['graph_states'], len(docs)),
         'bound': 'as C01 (graph closed=%s) and C03' % info['graph_closed'],
         'exhaustive': True,
@@ -185,6 +188,8 @@ def plan(tier):
 
 
 def run_unit(unit, tier):
+    if unit[0] == 'scale':
+        return wrgraph.wr_run_scale_unit(unit, tier, check_canonical, Acc)
     if unit[0] in ('state', 'file'):
         return wrgraph.wr_run_unit(unit, tier, check_canonical, True, ID)
     acc = Acc()
@@ -250,6 +255,12 @@ def run_unit(unit, tier):
 
 def replay(payload):
     k = payload.get('kind')
+    if k == 'scale':
+        cfgs, variants = wrgraph.scale_units('quick')[1:]
+        root, enc, le = variants[payload['variant']]
+        ex = wrgraph.Exec(wrgraph.scale_calls(payload['cfg'], enc, le), root)
+        return [{'key': k_ + ':scale', 'msg': m}
+                for k_, m in check_canonical(ex)]
     if k == 'calls':
         ex = wrgraph.Exec(from_jsonable(payload['calls']), payload['root'])
         viols = check_canonical(ex)
